@@ -78,6 +78,11 @@ CLAIMED = {
    technique="exhaustive boundary-value enumeration of configurations against an independently written constraint table; exhaustive truncation, single-byte damage and crash-cut enumeration of the stored manifest, opened by the real engine",
    text="For 3 valid base configurations every single-field deviation, every pair of fields over their boundary values and the full warning x critical product are validated, saved and loaded: Validate accepts iff the documented table does, a rejected configuration makes SaveManifest fail with zero recorded file-system calls, an accepted one round-trips in every field. A database created with an all-non-default configuration must run with it (also after reopen); every truncation, every single-byte damage x 5 classes and every crash cut / torn write of a manifest update over existing data must make opening fail with an error or run with the stored (old or new) configuration, never with defaults.",
    note="A damaged byte that yields another valid configuration is undetectable without a checksum and not flagged. A missing manifest means a new database."),
+ "C19": dict(
+   level="model_checking", design="§3 C19",
+   technique="explicit-state search over request sequences against the real gRPC service handlers (in-memory streams) on a real engine, states de-duplicated by implementation state, differential oracle against the embedded API and a map model",
+   text="All sequences up to depth 4 (5 thorough) over 20 (23) requests - puts incl. empty value and boundary sizes, deletes, batches (repeated keys, 1000 ops), transactions by handle (begin rw/ro, put, delete, commit, rollback, finished and unknown handles) and 8 kinds of requests outside the documented limits that must be rejected - are sent to the real KevoServiceServer; after every sequence Get/TxGet of 7 keys, all 32 combinations of scan options for Scan/TxScan, limit, GetNodeInfo, finished handles and the embedded reads on the same engine are compared with the model (prefix/suffix override start/end as documented); rejected requests must change nothing, including the open transaction.",
+   note="Handlers are called directly (marshalling not exercised; empty bytes passed as nil like protobuf delivers them). Compact/GetStats are administrative and excluded."),
 }
 
 ALL = ["C%02d" % i for i in range(1, 21)]
